@@ -83,10 +83,10 @@ Definition rans_tail (P x : Z) : bytes :=
 Definition rans_block (P : Z) (st : rstate) : bytes := rev_append (snd st) (rans_tail P (fst st)).
 
 (** * ans.h : RAnsDecoder<P> *)
-(** read_init(buf, offset) on the block [blk] (offset = its length).  [pre] are the bytes that precede the
-    block in memory, nearest first: the x == 3 branch has no `offset < 4` test and reads buf[offset-4..] even
-    when that starts before buf.  The decoder state is (state, unread bytes of the block, last first);
-    a negative buf_offset behaves like an empty stack (`buf_offset > 0` is false). *)
+(** read_init(buf, offset) on the block [blk] (offset = its length).  Every branch checks that the block holds the
+    1..4 tail bytes it reads (the x == 3 branch since commit f82c4f5), so nothing outside the block is looked at.
+    [pre] (the bytes in front of the block, nearest first) is kept as an argument for the callers but is ignored.
+    The decoder state is (state, unread bytes of the block, last first). *)
 Definition rans_read_init (P : Z) (pre : list Z) (blk : bytes) : dres rstate :=
   let L := rans_L P in
   let chk (x : Z) (stk : list Z) : dres rstate :=
@@ -107,9 +107,9 @@ Definition rans_read_init (P : Z) (pre : list Z) (blk : bytes) : dres rstate :=
       | _ => Fail
       end
     else
-      match r0 ++ firstn 3 pre with
-      | b1 :: b2 :: b3 :: _ => chk ((b0 * 16777216 + b1 * 65536 + b2 * 256 + b3) mod 2 ^ 30) (skipn 3 r0)
-      | _ => Oob                                                   (* read before the start of the buffer *)
+      match r0 with
+      | b1 :: b2 :: b3 :: r3 => chk ((b0 * 16777216 + b1 * 65536 + b2 * 256 + b3) mod 2 ^ 30) r3
+      | _ => Fail                                                  (* offset < 4 *)
       end
   end.
 
